@@ -395,3 +395,83 @@ func normBytes(b []byte) string {
 	s = strings.ReplaceAll(s, `\f`, gen.U("000c"))
 	return s
 }
+
+// values whose encoding is more than a thousand pointer/slice/map levels deep (where the encoder starts to
+// look for cycles) and which hold pointers into themselves that are not cycles: a pointer to the first field of
+// a struct has the address of the struct
+type headT struct {
+	X int `json:"x"`
+}
+type interiorNode struct {
+	Head headT  `json:"head"`
+	Ref  *headT `json:"ref,omitempty"`
+	Next any    `json:"next,omitempty"`
+}
+type sliceFirst struct {
+	A []int  `json:"a"`
+	P *[]int `json:"p"`
+}
+type selfPtr struct {
+	N    int      `json:"n"`
+	Self *selfPtr `json:"self,omitempty"`
+}
+
+func interiorList(n int, shareRef bool) any {
+	var next any
+	var first *interiorNode
+	for i := n; i > 0; i-- {
+		nd := &interiorNode{Head: headT{i}, Next: next}
+		nd.Ref = &nd.Head
+		if first == nil {
+			first = nd
+		} else if shareRef {
+			nd.Ref = &first.Head // the same (acyclic) pointer on every level
+		}
+		next = nd
+	}
+	return next
+}
+
+func deepValue(idx int) (any, string) {
+	wrap := func(v any, n int, kind int) any {
+		for i := 0; i < n; i++ {
+			switch kind {
+			case 0:
+				v = []any{v}
+			case 1:
+				v = map[string]any{"m": v}
+			default:
+				w := v
+				v = &w
+			}
+		}
+		return v
+	}
+	depths := []int{10, 999, 1000, 1001, 1500}
+	n := depths[idx%len(depths)]
+	switch k := idx / len(depths); k {
+	case 0:
+		return interiorList(n, false), "list of nodes each pointing at its own first field"
+	case 1:
+		return interiorList(n, true), "list of nodes all pointing at the last node's first field"
+	case 2, 3, 4:
+		nd := &interiorNode{Head: headT{7}}
+		nd.Ref = &nd.Head
+		return wrap(nd, n, k-2), "node pointing at its own first field, below slices/maps/pointers"
+	case 5, 6:
+		sf := &sliceFirst{A: []int{1, 2, 3}}
+		sf.P = &sf.A
+		return wrap(sf, n, k-5), "struct with a pointer to its first (slice) field, below slices/maps"
+	case 7:
+		// a real cycle, reached below n levels: both encoders must report it
+		sp := &selfPtr{N: 1}
+		sp.Self = sp
+		return wrap(sp, n, 2), "pointer cycle"
+	default:
+		// the same acyclic pointer twice side by side, below n levels
+		x := &headT{3}
+		return wrap([]any{x, x, map[string]any{"again": x}}, n, 0), "one pointer used three times, no cycle"
+	}
+}
+
+const deepValueCount = 9 * 5
